@@ -24,6 +24,11 @@ RULE = (
     'in the beam\'s unit (units m/mm/km/cm), go through the correspondence, the accuracy oracle and a rescaling oracle '
     '(×1e±6, 1e±12). Data arrays carrying any subset of precomputed incident_beam/scattered_beam/L1/L2/two_theta coordinates '
     'are passed to every accessor of beamline_components twice (identical results, Euclidean values, bit-identical input). '
+    'Every entry point taking a `scatter` flag (graph.beamline.beamline / Ltotal, scn.Ltotal, keyword and positional; scn.convert) is '
+    'called with the flag as bool, numpy.bool_, int, numpy.int64, sc.scalar(..).value, sc.array(..).values[i], np.any(..), '
+    'sc.any(..).value of both truth values (and origin/target as str subclass / numpy.str_) and compared with the graph model and the '
+    'Euclidean definition for the truth value; the stand-alone graphs L1()/L2()/two_theta()/Ltotal() run on data that already '
+    'carries incident_beam/scattered_beam coordinates. '
     'A case is non-trivial when both beams are non-zero; distinct = distinct input bit patterns.'
 )
 ASSUMPTIONS = [
@@ -430,6 +435,7 @@ def _correspond(ctx):
     _correspond_scalar(ctx)
     _correspond_beams(ctx)
     _correspond_beams_0d(ctx)
+    _correspond_scatter_flag(ctx)
 
 
 def _correspond_scalar(ctx):
@@ -544,6 +550,40 @@ def _correspond_beams_0d(ctx):
                 ctx.disagree(case, _b(t), o, 'two_theta (0-d operand) differs by more than 2 ulp and 2e-15 rad')
 
 
+def _correspond_scatter_flag(ctx):
+    """the `scatter` flag with different Python types: every entry point against the Lean graph model (`c03.graph` gives both
+    Ltotal = L1+L2 and the straight no-scatter Ltotal; the flag's truth value selects which one is documented)"""
+    rng = ctx.rng
+
+    class Quiet:
+        """value mismatches against the Euclidean definition are the oracle's business; here only model disagreements count"""
+        def __init__(self, ctx_):
+            self.c = ctx_
+
+        def case(self, *a, **k):
+            self.c.case(*a, **k)
+
+        def count(self, *a, **k):
+            self.c.count(*a, **k)
+
+        def disagree(self, *a, **k):
+            self.c.disagree(*a, **k)
+
+        def violation(self, key, what, witness):
+            self.c.disagree(witness, what, 'the graph model for the truth value of the flag', 'scatter flag type')
+    with hp.precision():
+        for _ in range(ctx.n(6, 60)):
+            while True:
+                kind, src, smp, _ = gen_positions(rng)
+                if kind != 'zero' and src != smp:
+                    break
+            scale = max(math.sqrt(sum((smp[i] - src[i]) ** 2 for i in range(3))), 1e-6)
+            poss = [[smp[i] + c * scale * _lu(rng, 1e-2, 1e2) for i, c in enumerate(_dir(rng))] for _ in range(rng.randrange(1, 4))]
+            unit = rng.choice(UNITS)
+            outs = ctx.driver(['c03.graph ' + ' '.join(hp.bits(x) for x in (*src, *smp, *p_)) for p_ in poss])
+            check_scatter_flag(Quiet(ctx), src, smp, poss, unit, model_lines=outs)
+
+
 def _exact(fr: Fraction):
     """float equal to the fraction, or None"""
     try:
@@ -619,11 +659,15 @@ def _pow2(rng, lo=-20, hi=20):
 
 
 def oracle(ctx, deep):
+    mult = 4 if deep else 1
     with hp.precision():
-        try:
-            _oracle(ctx, deep)
-        except ImplRaised as e:
-            ctx.violation('C03:unexpected-exception', f'{e.where} raised {type(e.exc).__name__} on valid input: {str(e.exc)[:200]}', e.witness)
+        # every stage runs even if the code under test raised in an earlier one
+        for stage in (lambda c, m: _oracle(c, deep), _oracle_general_rotation, _oracle_0d_beams, _oracle_pipeline,
+                      _oracle_accessors_repeatable, _oracle_configuration):
+            try:
+                stage(ctx, mult)
+            except ImplRaised as e:
+                ctx.violation('C03:unexpected-exception', f'{e.where} raised {type(e.exc).__name__} on valid input: {str(e.exc)[:200]}', e.witness)
 
 
 def _oracle(ctx, deep):
@@ -707,10 +751,6 @@ def _oracle(ctx, deep):
         if not abs(float(ttp[i]) - t) <= 2 * ACC:
             ctx.violation('C03:two-theta-rotation', f'two_theta changes from {t!r} to {float(ttp[i])!r} under a signed '
                           'permutation of the axes', {**w, 'perm': list(perms[i][0]), 'signs': perms[i][1]})
-    _oracle_general_rotation(ctx, mult)
-    _oracle_0d_beams(ctx, mult)
-    _oracle_pipeline(ctx, mult)
-    _oracle_accessors_repeatable(ctx, mult)
 
 
 def _rand_rotation(rng):
@@ -1013,6 +1053,240 @@ def _oracle_accessors_repeatable(ctx, mult):
         check_accessors(ctx, gen_da_cfg(rng))
 
 
+# ---- configuration arguments: the `scatter` flag given with different Python types of the same truthiness ----
+
+def flag_variants():
+    """(label, value, truth) — values a caller may reasonably hold for a boolean flag"""
+    import scipp as sc
+
+    arr = sc.array(dims=['x'], values=[True, False])
+    out = []
+    for t in (True, False):
+        out += [
+            ('bool', t, t), ('numpy.bool_', np.bool_(t), t), ('int', 1 if t else 0, t), ('numpy.int64', np.int64(1 if t else 0), t),
+            ('sc.scalar(..).value', sc.scalar(t).value, t), ('sc.array(..).values[i]', arr.values[0 if t else 1], t),
+            ('np.any(..)', np.any(np.array([t])), t), ('sc.any(..).value', sc.any(sc.array(dims=['x'], values=[t, False])).value, t),
+        ]
+    return out
+
+
+SCATTER_NODES = ['L1', 'L2', 'Ltotal', 'incident_beam', 'scattered_beam', 'two_theta']
+
+
+def impl_scatter_flag(src, smp, poss, unit, flag, how):
+    """one entry point taking a `scatter` flag → (per-pixel Ltotal values, sorted node names or None)"""
+    import scipp as sc
+    import scippneutron as scn
+    from scippneutron.conversion.graph import beamline as gb
+
+    n = len(poss)
+    da = sc.DataArray(sc.ones(dims=['pixel'], shape=[n]), coords={
+        'position': _vectors(poss, unit), 'source_position': _vector(src, unit), 'sample_position': _vector(smp, unit)})
+    nodes = None
+    if how == 'graph.beamline(scatter=)':
+        g = gb.beamline(scatter=flag)
+        nodes = sorted(g)
+        v = da.transform_coords('Ltotal', graph=g, rename_dims=False).coords['Ltotal']
+    elif how == 'graph.beamline(positional)':
+        g = gb.beamline(flag)
+        nodes = sorted(g)
+        v = da.transform_coords('Ltotal', graph=g, rename_dims=False).coords['Ltotal']
+    elif how == 'graph.Ltotal(scatter=)':
+        g = gb.Ltotal(scatter=flag)
+        nodes = sorted(g)
+        v = da.transform_coords('Ltotal', graph=g, rename_dims=False).coords['Ltotal']
+    elif how == 'graph.Ltotal(positional)':
+        g = gb.Ltotal(flag)
+        nodes = sorted(g)
+        v = da.transform_coords('Ltotal', graph=g, rename_dims=False).coords['Ltotal']
+    elif how == 'scn.Ltotal(da, scatter=)':
+        v = scn.Ltotal(da, scatter=flag)
+    elif how == 'scn.Ltotal(da, positional)':
+        v = scn.Ltotal(da, flag)
+    else:
+        raise KeyError(how)
+    vals = np.array(np.broadcast_to(v.values, (n,)) if v.ndim == 0 else v.values, dtype=np.float64)
+    return vals, nodes, str(v.unit)
+
+
+FLAG_ENTRY_POINTS = ['scn.Ltotal(da, scatter=)', 'scn.Ltotal(da, positional)', 'graph.beamline(scatter=)', 'graph.beamline(positional)',
+                     'graph.Ltotal(scatter=)', 'graph.Ltotal(positional)']
+
+
+def expected_nodes(how, truth):
+    if how.startswith('scn.'):
+        return None
+    if not truth:
+        return ['Ltotal']
+    return SCATTER_NODES if 'beamline' in how else [k for k in SCATTER_NODES if k != 'two_theta']
+
+
+def check_scatter_flag(ctx, src, smp, poss, unit, model_lines=None, count=True):
+    """every entry point × every flag variant: the documented quantity for the flag's truth value.  With model_lines (outputs of
+    `c03.graph` for the same positions) the values are also compared with the Lean graph model (correspondence)."""
+    nviol = 0
+    want = {True: [], False: []}
+    for p_ in poss:
+        want[True].append((hp.V.of(smp) - hp.V.of(src)).norm() + (hp.V.of(p_) - hp.V.of(smp)).norm())
+        want[False].append((hp.V.of(p_) - hp.V.of(src)).norm())
+    slack = [hp.D(EPS) * (hp.V.of(p_).norm() + hp.V.of(src).norm() + 2 * hp.V.of(smp).norm()) for p_ in poss]
+    for how in FLAG_ENTRY_POINTS:
+        for label, flag, truth in flag_variants():
+            w = {'source': [hp.bits(x) for x in src], 'sample': [hp.bits(x) for x in smp], 'positions': [[hp.bits(x) for x in p_] for p_ in poss],
+                 'unit': unit, 'entry_point': how, 'flag_type': label, 'flag_truth': truth, 'kind': 'scatter-flag'}
+            if count:
+                ctx.case(('flag', how, label, truth) + tuple(w['source'] + w['sample'] + w['positions'][0]), True)
+                ctx.count('scatter-flag:' + label)
+            try:
+                vals, nodes, u = impl_scatter_flag(src, smp, poss, unit, flag, how)
+            except Exception as e:  # noqa: BLE001
+                ctx.violation('C03:scatter-flag-type', f'{how} with scatter given as {label} ({flag!r}) raised {type(e).__name__}: {str(e)[:120]}', w)
+                nviol += 1
+                continue
+            en = expected_nodes(how, truth)
+            if en is not None and nodes != en:
+                ctx.violation('C03:scatter-flag-type', f'{how} with scatter = {flag!r} ({label}, truth value {truth}) returned a graph with nodes '
+                              f'{nodes}; documented for scatter={truth}: {en}', w)
+                nviol += 1
+                continue
+            for i in range(len(poss)):
+                if not abs(hp.D(float(vals[i])) - want[truth][i]) <= hp.D(2 * LEN_RTOL) * want[truth][i] + slack[i]:
+                    other = want[not truth][i]
+                    ctx.violation('C03:scatter-flag-type', f'{how} with scatter = {flag!r} ({label}, truth value {truth}): Ltotal = {float(vals[i])!r}, '
+                                  f'but {"L1+L2" if truth else "the straight source-to-pixel distance"} is {hp.fmt(want[truth][i])} '
+                                  f'({"the straight distance" if truth else "L1+L2"} would be {hp.fmt(other)})', {**w, 'pixel': i})
+                    nviol += 1
+                    break
+                if model_lines is not None:
+                    toks = model_lines[i].split()
+                    model = toks[9] if truth else toks[10]
+                    if _b(vals[i]) != model:
+                        ctx.disagree(w, _b(vals[i]), model, f'{how} with scatter={flag!r} ({label}): Ltotal differs bit-wise from the graph model '
+                                                            f'for scatter={truth}')
+                        break
+    return nviol
+
+
+def check_convert_flag(ctx, src, smp, poss, unit, count=True):
+    """scn.convert(tof → wavelength) with the flag / origin / target given as other types: bit-identical to the plain call"""
+    import scipp as sc
+    import scippneutron as scn
+
+    class Str(str):
+        pass
+    n = len(poss)
+    us = 1.0
+    da = sc.DataArray(sc.ones(dims=['pixel', 'tof'], shape=[n, 2]), coords={
+        'tof': sc.array(dims=['tof'], values=[1000.0, 2000.0, 3500.0], unit='us'),
+        'position': _vectors(poss, unit), 'source_position': _vector(src, unit), 'sample_position': _vector(smp, unit)})
+    nviol = 0
+    ref = {}
+    for t in (True, False):
+        r = scn.convert(da, origin='tof', target='wavelength', scatter=t)
+        ref[t] = (np.array(r.coords['wavelength'].values).tobytes(), sorted(r.coords.keys()))
+    w0 = {'source': [hp.bits(x) for x in src], 'sample': [hp.bits(x) for x in smp], 'positions': [[hp.bits(x) for x in p_] for p_ in poss],
+          'unit': unit, 'kind': 'convert-flag'}
+    calls = [(label, dict(origin='tof', target='wavelength', scatter=flag), (), truth) for label, flag, truth in flag_variants()]
+    for t in (True, False):
+        calls += [('origin/target as str subclass', dict(origin=Str('tof'), target=Str('wavelength'), scatter=t), (), t),
+                  ('origin/target as numpy.str_', dict(origin=np.str_('tof'), target=np.str_('wavelength'), scatter=t), (), t),
+                  ('positional arguments', {}, ('tof', 'wavelength', t), t)]
+    for label, kw, pos_, truth in calls:
+        if count:
+            ctx.case(('convert-flag', label, truth) + tuple(w0['source'] + w0['positions'][0]), True)
+            ctx.count('convert-flag:' + label)
+        try:
+            r = scn.convert(da, *pos_, **kw)
+            got = (np.array(r.coords['wavelength'].values).tobytes(), sorted(r.coords.keys()))
+        except Exception as e:  # noqa: BLE001
+            got = f'raised {type(e).__name__}: {str(e)[:100]}'
+        if got != ref[truth]:
+            ctx.violation('C03:scatter-flag-type', f'scn.convert(tof→wavelength) with {label} (truth value {truth}) '
+                          + (got if isinstance(got, str) else f'returned coordinates {got[1]} / other values than the plain call with scatter={truth} '
+                             f'({ref[truth][1]})'), {**w0, 'variant': label, 'flag_truth': truth})
+            nviol += 1
+    return nviol
+
+
+def check_standalone_graphs(ctx, cfg, count=True):
+    """the stand-alone graphs L1(), L2(), two_theta(), Ltotal(scatter), incident_beam(), scattered_beam() on a data array that
+    ALREADY carries (some of) incident_beam / scattered_beam / L1 / L2: each node must be computed from the documented inputs"""
+    from scippneutron.conversion.graph import beamline as gb
+
+    plan = {'incident_beam': gb.incident_beam, 'scattered_beam': gb.scattered_beam, 'L1': gb.L1, 'L2': gb.L2, 'two_theta': gb.two_theta,
+            'Ltotal:scatter': lambda: gb.Ltotal(scatter=True), 'Ltotal:noscatter': lambda: gb.Ltotal(scatter=False)}
+    n = len(cfg['position'])
+    nviol = 0
+    for name, factory in plan.items():
+        da = build_da(cfg)
+        node = name.split(':')[0]
+        if count:
+            ctx.case(('sgraph', name, repr(sorted(cfg['pre'])), tuple(cfg['position'][0])), True)
+            ctx.count('oracle:standalone-graph:' + name)
+        try:
+            v = da.transform_coords(node, graph=factory(), rename_dims=False).coords[node]
+            vals = np.array(np.broadcast_to(v.values, (n,) + np.shape(v.values)[(1 if v.ndim else 0):]) if v.ndim == 0 else v.values,
+                            dtype=np.float64)
+        except Exception as e:  # noqa: BLE001
+            ctx.violation('C03:unexpected-exception', f'graph.beamline.{name}() through transform_coords raised {type(e).__name__}: {str(e)[:140]} '
+                          f'(coordinates present: positions + {sorted(cfg["pre"])})', {'cfg': cfg, 'graph': name, 'kind': 'standalone-graph'})
+            nviol += 1
+            continue
+        for i in range(n):
+            kind, want = expected_accessor(cfg, name, i)
+            got = vals[i]
+            if kind == 'exact':
+                bad = [hp.bits(float(x)) for x in np.ravel(got)] != [hp.bits(x) for x in want]
+                desc = f'{want}'
+            elif kind == 'len':
+                pos = [hp.unbits(h) for h in cfg['position'][i]]
+                src = [hp.unbits(h) for h in cfg['source_position']]
+                smp = [hp.unbits(h) for h in cfg['sample_position']]
+                slack = hp.D(EPS) * (hp.V.of(pos).norm() + hp.V.of(src).norm() + 2 * hp.V.of(smp).norm())
+                bad = not abs(hp.D(float(got)) - want) <= hp.D(2 * LEN_RTOL) * want + slack
+                desc = hp.fmt(want)
+            else:
+                bad = not abs(hp.D(float(got)) - want) <= hp.D(ACC)
+                desc = hp.fmt(want)
+            if bad:
+                key = 'C03:two-theta-accuracy' if kind == 'angle' else ('C03:length-definition' if kind == 'len' else 'C03:beam-definition')
+                ctx.violation(key, f'graph.beamline.{name}() gives {node} = {np.ravel(got).tolist()} for pixel {i}; the Euclidean definition from '
+                              f'the supplied/derived quantities gives {desc} (coordinates present: positions + {sorted(cfg["pre"])})',
+                              {'cfg': cfg, 'graph': name, 'pixel': i, 'kind': 'standalone-graph'})
+                nviol += 1
+                break
+    return nviol
+
+
+def _oracle_configuration(ctx, mult):
+    rng = ctx.rng
+    for _ in range(ctx.n(12, 150) * mult):
+        while True:
+            kind, src, smp, _ = gen_positions(rng)
+            if kind != 'zero' and src != smp:
+                break
+        scale = max(_norm([smp[i] - src[i] for i in range(3)]), 1e-6)
+        poss = [[smp[i] + c * scale * _lu(rng, 1e-2, 1e2) for i, c in enumerate(_dir(rng))] for _ in range(rng.randrange(1, 4))]
+        unit = rng.choice(UNITS)
+        check_scatter_flag(ctx, src, smp, poss, unit)
+        check_convert_flag(ctx, src, smp, poss, 'm')
+    for _ in range(ctx.n(80, 2000) * mult):
+        cfg = gen_da_cfg(rng)
+        if rng.random() < 0.6:
+            # both beams supplied (with values that differ from the positions' differences): a node wired to the wrong kernel or
+            # the wrong input then shows up as a wrong length instead of a missing-input error
+            n = len(cfg['position'])
+            for k in ('incident_beam', 'scattered_beam'):
+                if k not in cfg['pre']:
+                    cfg['pre'][k] = {'scalar': False, 'values': [[hp.bits(c * _lu(rng, 1e-2, 1e2)) for c in _dir(rng)] for _ in range(n)]}
+            if cfg['pre']['incident_beam']['scalar'] is False and cfg['pre']['scattered_beam']['scalar'] is True:
+                cfg['pre']['scattered_beam'] = {'scalar': False, 'values': [cfg['pre']['scattered_beam']['values'][0]] * n}
+            for k in ('L1', 'L2', 'two_theta'):
+                if rng.random() < 0.7:
+                    cfg['pre'].pop(k, None)
+        check_standalone_graphs(ctx, cfg)
+
+
 def _dyadic_point(rng, bits_=20, e=None):
     e = rng.randrange(-10, 11) if e is None else e
     return [rng.randrange(-2 ** bits_, 2 ** bits_ + 1) * 2.0 ** (e - bits_) for _ in range(3)], e
@@ -1112,6 +1386,27 @@ def replay(ctx, payload):
 def _replay(ctx, payload):
     w = payload.get('witness', {})
     key = payload.get('key', '')
+    if w.get('kind') in ('scatter-flag', 'convert-flag', 'standalone-graph'):
+        class Sink2:
+            def violation(self, key, what, witness):
+                print('  ', key, '—', what)
+
+            def case(self, *a, **k):
+                pass
+
+            def count(self, *a, **k):
+                pass
+
+            def disagree(self, *a, **k):
+                pass
+        with hp.precision():
+            if w['kind'] == 'standalone-graph':
+                return check_standalone_graphs(Sink2(), w['cfg'], count=False) > 0
+            src, smp = [hp.unbits(h) for h in w['source']], [hp.unbits(h) for h in w['sample']]
+            poss = [[hp.unbits(h) for h in p_] for p_ in w['positions']]
+            if w['kind'] == 'scatter-flag':
+                return check_scatter_flag(Sink2(), src, smp, poss, w['unit'], count=False) > 0
+            return check_convert_flag(Sink2(), src, smp, poss, w['unit'], count=False) > 0
     if 'cfg' in w:
         class Sink:
             def violation(self, key, what, witness):
@@ -1159,6 +1454,7 @@ def _replay(ctx, payload):
             s, m, p = ([hp.unbits(h) for h in w[k]] for k in ('source', 'sample', 'position'))
             impl_kernels([s], [m], [p], w.get('unit', 'm'))
             impl_dataarray([s], [m], [p], w.get('unit', 'm'), False)
+            impl_graph_factories([s], [m], [p], w.get('unit', 'm'))
         return False
     with hp.precision():
         if 'b1' in w and 'b2' in w and key in ('C03:two-theta-accuracy', 'C03:two-theta-range', 'C03:two-theta-symmetry',
